@@ -40,7 +40,7 @@ def _slice_case(draw):
               for n in shape]
     astuple = True if ndim > 1 else draw(st.booleans())
     return {'op': 'slice', 'shape': shape, 'kinds': kinds, 'slices': slices,
-            'astuple': astuple}
+            'astuple': astuple, 'layout': draw(st.sampled_from(['C', 'C', 'F']))}
 
 
 @st.composite
@@ -49,7 +49,8 @@ def _squeeze_case(draw):
     ndim = len(shape)
     has_bins = draw(st.booleans())
     kinds = [draw(st.sampled_from('ec')) for _ in range(ndim)] if has_bins else None
-    return {'op': 'squeeze', 'shape': shape, 'kinds': kinds}
+    return {'op': 'squeeze', 'shape': shape, 'kinds': kinds,
+            'layout': draw(st.sampled_from(['C', 'C', 'F']))}
 
 
 def strategy(tier):
@@ -72,6 +73,8 @@ def _build(case):
     size = int(np.prod(shape)) if shape else 1
     value = (np.arange(size, dtype=float) + 1.0).reshape(shape)
     error = value * 0.125
+    if case.get('layout') == 'F' and len(shape) >= 2:     # same numbers, Fortran memory order
+        value, error = np.asfortranarray(value), np.asfortranarray(error)
     bins = dsutil.make_bins(shape, case['kinds']) if case['kinds'] else None
     return Dataset(value, error, bins=bins, name='ds', what='w'), value, error, bins
 
